@@ -56,10 +56,14 @@ def fbits(x):
 # functions
 # ---------------------------------------------------------------------------------------------
 
-def _raise_if_mod(k, r):
+EXC_TYPES = {'ValueError': ValueError, 'TypeError': TypeError, 'KeyError': KeyError, 'ZeroDivisionError': ZeroDivisionError,
+             'AttributeError': AttributeError, 'IndexError': IndexError}
+
+
+def _raise_if_mod(k, r, exc='ValueError'):
     def f(x):
         if x % k == r:
-            raise ValueError('boom %r' % (x,))
+            raise EXC_TYPES[exc]('boom %r' % (x,))
         return x
     return f
 
@@ -69,6 +73,24 @@ SHARED_NAN = float('nan')
 
 class _Sentinel(object):
     pass
+
+
+class _NeInt(object):
+    """a value whose comparisons answer with ints (1 / 0), as numpy scalars answer with numpy bools: truthy, but not `True`"""
+    def __init__(self, v):
+        self.v = v
+
+    def __eq__(self, o):
+        return 1 if isinstance(o, _NeInt) and o.v == self.v else 0
+
+    def __ne__(self, o):
+        return 0 if isinstance(o, _NeInt) and o.v == self.v else 1
+
+    def __hash__(self):
+        return hash(self.v)
+
+    def __repr__(self):
+        return 'NeInt(%r)' % (self.v,)
 
 
 SENTINELS = [_Sentinel(), _Sentinel(), _Sentinel()]
@@ -118,7 +140,7 @@ def fn1(d):
         k = d[1]
         return lambda x: k / x
     if n == 'raise_if_mod':
-        return _raise_if_mod(d[1], d[2])
+        return _raise_if_mod(d[1], d[2], *d[3:4])
     if n == 'truthy_int':
         return lambda x: x % 2
     if n == 'floordiv':
@@ -141,6 +163,9 @@ def fn1(d):
         # instances without __eq__: equal only to themselves (Python only; outside the model's value domain)
         k = d[1]
         return lambda x: SENTINELS[(x // k) % 3]
+    if n == 'neint_of':
+        k = d[1]
+        return lambda x: _NeInt((x // k) % 3)
     if n == 'mixed_eq':
         # equal values of different types: 0 == 0.0 == False == Fraction(0), … (Python only)
         k = d[1]
@@ -175,12 +200,25 @@ def fn2(d):
         return lambda a, x: x
     if n == 'raise_if_mod':
         k, r = d[1], d[2]
+        exc = EXC_TYPES[d[3]] if len(d) > 3 else ValueError
 
         def f(a, x):
             if x % k == r:
-                raise ValueError('boom')
+                raise exc('boom')
             return a + x
         return f
+    if n == 'raise_default':
+        # a user function with a default argument (Python only): callable with one argument too
+        k, r = d[1], d[2]
+        exc = EXC_TYPES[d[3]] if len(d) > 3 else ValueError
+
+        def g(a, b=1, c=0):
+            if isinstance(a, tuple):
+                return ('called-with-the-whole-tuple', a)
+            if a % k == r:
+                raise exc('boom')
+            return a + b + c
+        return g
     if n == 'pair_last':
         return lambda a, x: (a[0] + 1, x)
     if n == 'append_fst':
